@@ -933,7 +933,7 @@ func (r *run) malformed(op map[string]any, ln *Line) {
 		}
 		c.Close()
 		skipped := false
-		for {
+		for n := 0; n < 6; n++ {
 			res := srv.AcceptOne(1500 * time.Millisecond)
 			if res.Kind == "timeout" {
 				break
